@@ -4,7 +4,7 @@
 //! The core idea is that we install a custom panic hook (`init_panic_hook`) that runs when a thread
 //! panics. That hook tries to print information about the failing schedule by calling
 //! `persist_failure`.
-use std::cell::Cell;
+use std::cell::{Cell, RefCell};
 use std::fs::OpenOptions;
 use std::io::{ErrorKind, Write};
 use std::panic;
@@ -17,7 +17,13 @@ use crate::scheduler::serialization::serialize_schedule;
 
 // When we last persisted a schedule. Used so that we don't persist the same schedule twice.
 thread_local! {
-    static SCHEDULE_PERSISTED_AT: Cell<usize> = const { Cell::new(0) };
+    static SCHEDULE_PERSISTED_AT: Cell<usize> = const { Cell::new(usize::MAX) };
+}
+
+// The configuration of the execution currently running on this thread. The panic hook is installed
+// once per process, so it must not capture the configuration of whichever run happened to be first.
+thread_local! {
+    static ACTIVE_CONFIG: RefCell<Option<Config>> = const { RefCell::new(None) };
 }
 
 /// Persist (to stderr or to file) a message describing how to replay a failing schedule.
@@ -89,14 +95,21 @@ fn persist_failure_to_file(serialized_schedule: &str, destination: Option<&PathB
 /// See the module documentation for more details on how this method fits into the failure reporting
 /// story.
 pub fn init_panic_hook(config: Config) {
+    // A new execution starts: nothing has been persisted for it yet.
+    SCHEDULE_PERSISTED_AT.set(usize::MAX);
+    ACTIVE_CONFIG.with(|c| *c.borrow_mut() = Some(config));
+
     static INIT: Once = Once::new();
     INIT.call_once(|| {
         let original_hook = panic::take_hook();
         panic::set_hook(Box::new(move |panic_info| {
-            eprintln!("Task failed, serializing schedule");
-            let task_name = ExecutionState::failing_task();
-            eprintln!("test panicked in task '{task_name}'");
-            persist_failure(&config);
+            let config = ACTIVE_CONFIG.with(|c| c.try_borrow().ok().and_then(|c| c.clone()));
+            if let Some(config) = config {
+                eprintln!("Task failed, serializing schedule");
+                let task_name = ExecutionState::failing_task();
+                eprintln!("test panicked in task '{task_name}'");
+                persist_failure(&config);
+            }
             original_hook(panic_info);
         }));
     });
